@@ -1,11 +1,164 @@
 /-
-C01 - Master Boot Image: parse(export(x)) = x and a self-describing header.   (placeholder while the theorems are written)
+C01 - Master Boot Image: parse(export(x)) = x and a self-describing header.
+
+Model: `SpsdkVerif.Mbi` (Model/Mbi.lean) - an interpreter of mixin lists over the GENERATED class table, mixin facts,
+IVT constants, flag getters and `create_flags` (Generated/MbiClasses.lean, Generated/IvtConsts.lean).
+All statements quantify over every payload, option value, key, IV, signature and certificate block (unbounded), and over
+every class with `ClassWF c = true`; `all_classes_wf` decides `ClassWF` for every IVT class of the generated table.
+Helper lemmas: Proofs/Mbi*.lean.
 -/
-import SpsdkVerif.Model.Mbi
+import SpsdkVerif.Proofs.MbiPlain
+import SpsdkVerif.Proofs.MbiSignedV1
+import SpsdkVerif.Proofs.MbiSignedV21
+import SpsdkVerif.Proofs.MbiEncrypted
 
 namespace SpsdkVerif.Properties.C01
-open SpsdkVerif SpsdkVerif.Mbi
+open SpsdkVerif SpsdkVerif.Misc SpsdkVerif.Mbi
+open SpsdkVerif.Crypto (CryptoOps CryptoLaws)
+open SpsdkVerif.Generated.IvtConsts
+open SpsdkVerif.Generated.MbiClasses (MixinName)
 
-theorem placeholder : (1 : Nat) = 1 := rfl
+/-! ## the class table -/
+
+/-- every IVT class of the generated device table (102 = distinct (mixin list, TrustZone size) pairs of 545 database rows)
+    is structurally well-formed -/
+theorem all_classes_wf : ∀ c ∈ ivtClasses, ClassWF c = true := by decide +kernel
+
+/-- the table is not empty and contains all four families (the quantifier above is not vacuous) -/
+example : ivtClasses.length > 50 ∧ (ivtClasses.map (·.family)).eraseDups.length = 4 := by decide +kernel
+
+/-! ## the IVT flag word: bit-field independence over the generated masks / shifts / `create_flags` -/
+
+theorem flags_fields (t tz sub ver ksLen : Nat) (hTz hSub hHw hw hKs ksSet hTab tab hVer hV2T v2t : Bool)
+    (ht : t ≤ imageTypeMask) (htz : tz ≤ tzTypeMask) (hsub : sub ≤ subTypeMask) (hver : ver ≤ imgVerMask) :
+    let f := createFlags t hTz tz hSub sub hHw hw hKs ksSet ksLen hTab tab hVer ver hV2T v2t
+    getImageType f = t ∧ getTzType f = (if hTz then tz else 0) ∧ getSubType f = (if hSub then sub else 0)
+    ∧ getHwKeyEnabled f = (hHw && hw) ∧ getKeyStorePresented f = (hKs && ksSet && decide (ksLen > 0))
+    ∧ getAppTablePresented f = (hTab && tab) ∧ getImageVersion f = (if hVer && hV2T && v2t then ver else 0)
+    ∧ f < 2 ^ 32 :=
+  Mbi.flags_fields t tz sub ver ksLen hTz hSub hHw hw hKs ksSet hTab tab hVer hV2T v2t ht htz hsub hver
+
+/-! ## update_ivt / clean_ivt -/
+
+/-- `clean_ivt` undoes `update_ivt` (on the four IVT words) -/
+theorem ivt_update_clean (c : Cls) (cfg : Cfg) (app : Mbi.Bytes) (total crcOff : Nat) (h : minIvtSize ≤ app.length) :
+    cleanIvt (updateIvt c cfg app total crcOff) = cleanIvt app := Mbi.cleanIvt_updateIvt c cfg app total crcOff h
+
+/-- the four words read back as written -/
+theorem ivt_update_words (c : Cls) (cfg : Cfg) (app : Mbi.Bytes) (total crcOff : Nat) (h : minIvtSize ≤ app.length)
+    (hf : flagsOf c cfg < 2 ^ 32) (ht : total < 2 ^ 32) (ho : crcOff < 2 ^ 32) (hl : cfg.loadAddress < 2 ^ 32) :
+    let u := updateIvt c cfg app total crcOff
+    rd32 u ivtImageLengthOffset = (if c.zeroTotalLength then 0 else total)
+    ∧ rd32 u ivtImageFlagsOffset = flagsOf c cfg
+    ∧ rd32 u ivtCrcCertificateOffset = (if c.imageType = 0 then 0 else crcOff)
+    ∧ rd32 u ivtLoadAddrOffset = (if c.hasAttr .load_address then cfg.loadAddress else 0) :=
+  Mbi.updateIvt_words c cfg app total crcOff h hf ht ho hl
+
+/-- every other byte is untouched and the length is kept -/
+theorem ivt_update_frame (c : Cls) (cfg : Cfg) (app : Mbi.Bytes) (total crcOff : Nat) (h : minIvtSize ≤ app.length) :
+    (updateIvt c cfg app total crcOff).length = app.length
+    ∧ ∀ i, ¬ (32 ≤ i ∧ i < 44) → ¬ (52 ≤ i ∧ i < 56) → (updateIvt c cfg app total crcOff)[i]? = app[i]? :=
+  Mbi.updateIvt_frame c cfg app total crcOff h
+
+/-! ## relocation table -/
+
+/-- the table parses back to the same entries in the same order, and the application is cut where it started -/
+theorem reloc_roundtrip (pre : Mbi.Bytes) (es : List RelocEntry) (hne : es ≠ []) (hok : ∀ e ∈ es, relocEntryOk e = true)
+    (hlen : pre.length + (relocExport es pre.length).length < 2 ^ 32) :
+    relocParse (pre ++ relocExport es pre.length) = .ok (some (es, pre.length)) :=
+  Mbi.reloc_roundtrip pre es hne hok hlen
+
+/-! ## the image theorems -/
+
+/-- hypotheses shared by the image theorems: crypto laws, a structurally well-formed class, an option set the builder
+    accepts with values that fit their fields, the external certificate code answering what the builder was told, and a
+    signature provider returning signatures of the announced length -/
+abbrev Hyp := Mbi.Hyp
+
+/-- "disassemble cuts exactly what collect appended": for every collector, given the TrustZone / certificate the
+    mixins parsed, `disassemble_image` recovers the cleaned application and the relocation table -/
+theorem disassemble_collect {co : CryptoOps} {env : Env} {c : Cls} {cfg : Cfg} {signer : Signer}
+    (h : Hyp co env c cfg signer) (dek : Option Mbi.Bytes) (p : Parsed) (hp : p.tz = cfg.tz)
+    (hcert : p.cert.isSome = c.hasAttr .cert_block) (hr : p.reloc = none) :
+    ∃ raw, collect c cfg = .ok raw
+      ∧ disassemble c p raw = .ok { p with app := (canon c cfg dek).app, reloc := (canon c cfg dek).reloc } := by
+  rcases Mbi.family_cases h with hf | hf | hf | hf
+  · exact Mbi.disassemble_collect_plain h hf dek p hp hcert hr
+  · exact Mbi.disassemble_collect_signedV1 h hf dek p hp hcert hr
+  · exact Mbi.disassemble_collect_signedV21 h hf dek p hp hcert hr
+  · exact Mbi.disassemble_collect_encrypted h hf dek p hp hcert hr
+
+/-- parse(export(x)) = x: same application (IVT words cleaned, padded to 4), same settings, for every well-formed class
+    and option set; `dek` is the decryption key handed to the parser (the image key for encrypted images) -/
+theorem parse_export {co : CryptoOps} {env : Env} {c : Cls} {cfg : Cfg} {signer : Signer}
+    (h : Hyp co env c cfg signer) (dek : Option Mbi.Bytes) (hdek : c.family = some .encrypted → dek = cfg.hmacKey) :
+    ∃ e, exportImage co c cfg signer = .ok e ∧ parseImage co env c dek e = .ok (canon c cfg dek) := by
+  rcases Mbi.family_cases h with hf | hf | hf | hf
+  · exact Mbi.parse_export_plain h hf dek
+  · exact Mbi.parse_export_signedV1 h hf dek
+  · exact Mbi.parse_export_signedV21 h hf dek
+  · exact Mbi.parse_export_encrypted h hf dek (hdek hf)
+
+/-- the class quantifier of the property: every IVT class of the device database -/
+theorem parse_export_all_classes {co : CryptoOps} {env : Env} {c : Cls} {cfg : Cfg} {signer : Signer}
+    (hc : c ∈ ivtClasses) (laws : CryptoLaws co) (hcfg : cfgWF c cfg = true) (henv : EnvOK env c cfg)
+    (hsig : ∀ m, (signer m).length = cfg.sigLen) (dek : Option Mbi.Bytes) (hdek : c.family = some .encrypted → dek = cfg.hmacKey) :
+    ∃ e, exportImage co c cfg signer = .ok e ∧ parseImage co env c dek e = .ok (canon c cfg dek) :=
+  parse_export ⟨laws, all_classes_wf c hc, hcfg, henv, hsig⟩ dek hdek
+
+/-- re-exporting the parsed image with the same keys (and any signature of the right length) reproduces every byte
+    outside the signature field -/
+theorem reexport {co : CryptoOps} {env : Env} {c : Cls} {cfg : Cfg} {signer : Signer}
+    (h : Hyp co env c cfg signer) (signer' : Signer) (hs' : ∀ m, (signer' m).length = cfg.sigLen)
+    (dek : Option Mbi.Bytes) (hdek : c.has .Mbi_MixinHmac = true → dek = cfg.hmacKey) :
+    ∃ e e', exportImage co c cfg signer = .ok e ∧ exportImage co c (canon c cfg dek).toCfg signer' = .ok e'
+      ∧ eqOutsideSig c cfg e e' := by
+  rcases Mbi.family_cases h with hf | hf | hf | hf
+  · exact Mbi.reexport_plain h hf signer' hs' dek hdek
+  · exact Mbi.reexport_signedV1 h hf signer' hs' dek hdek
+  · exact Mbi.reexport_signedV21 h hf signer' hs' dek hdek
+  · exact Mbi.reexport_encrypted h hf signer' hs' dek hdek
+
+/-- the words the boot ROM reads describe the emitted bytes: 0x20 = emitted length (0 for zero-total-length classes),
+    0x24 = flags of the settings, 0x34 = load address, 0x28 = 0 (plain) / CRC-32-MPEG2 of the image without that word (CRC) /
+    offset of the certificate block = length of application + relocation table = where the block really is (signed) -/
+theorem header_describes {co : CryptoOps} {env : Env} {c : Cls} {cfg : Cfg} {signer : Signer}
+    (h : Hyp co env c cfg signer) :
+    ∃ e, exportImage co c cfg signer = .ok e
+      ∧ rd32 e ivtImageLengthOffset = (if c.zeroTotalLength then 0 else e.length)
+      ∧ rd32 e ivtImageFlagsOffset = flagsOf c cfg
+      ∧ rd32 e ivtLoadAddrOffset = (if c.has .Mbi_MixinLoadAddress then cfg.loadAddress else 0)
+      ∧ (c.imageType = 0 → rd32 e ivtCrcCertificateOffset = 0)
+      ∧ (c.signKind = .crc → rd32 e ivtCrcCertificateOffset
+            = crc32m (e.take ivtCrcCertificateOffset ++ e.drop (ivtCrcCertificateOffset + 4)))
+      ∧ (c.hasAttr .cert_block = true →
+          rd32 e ivtCrcCertificateOffset = appLen c cfg
+          ∧ (let off := appLen c cfg + (if c.has .Mbi_MixinHmac then hmacSize + (cfg.keyStore.getD []).length else 0)
+             slice e off (off + cfg.cert.length)
+               = (if c.has .Mbi_MixinCertBlockV1 then certInImage c cfg else cfg.cert))) := by
+  rcases Mbi.family_cases h with hf | hf | hf | hf
+  · exact Mbi.header_describes_plain h hf
+  · exact Mbi.header_describes_signedV1 h hf
+  · exact Mbi.header_describes_signedV21 h hf
+  · exact Mbi.header_describes_encrypted h hf
+
+/-- the emitted length is the sum of the mixins' `mix_len` plus the terms the exporters add on top
+    (RSA signature; encrypted IVT copy + counter IV) -/
+theorem total_len_sum {co : CryptoOps} {env : Env} {c : Cls} {cfg : Cfg} {signer : Signer}
+    (h : Hyp co env c cfg signer) :
+    ∃ e, exportImage co c cfg signer = .ok e
+      ∧ (e.length : Int) = totalLen c cfg + (if c.signKind = .rsa then cfg.sigLen else 0)
+          + (if c.family = some .encrypted then encIvtCopySize + encIvSize else 0) := by
+  rcases Mbi.family_cases h with hf | hf | hf | hf
+  · exact Mbi.total_len_sum_plain h hf
+  · exact Mbi.total_len_sum_signedV1 h hf
+  · exact Mbi.total_len_sum_signedV21 h hf
+  · exact Mbi.total_len_sum_encrypted h hf
+
+/-! ## non-vacuity: a concrete non-trivial configuration satisfies the hypotheses (decided) -/
+
+/-- a CRC XIP class with TrustZone and a 64-byte payload with custom TrustZone data -/
+example : ∃ c ∈ ivtClasses, ∃ cfg : Cfg, c.signKind = .crc ∧ cfgWF c cfg = true ∧ cfg.app.length = 61 :=
+  ⟨Mbi.exampleCrcClass, by decide +kernel, Mbi.exampleCrcCfg, by decide +kernel⟩
 
 end SpsdkVerif.Properties.C01
